@@ -30,6 +30,9 @@
             'for every choice of piece lengths',
  'trusted': ['libstdc++ std::vector<uint8_t>::resize / operator[] behave as spec/std_stubs.h states'],
  'assumptions': ['each piece length <= 2^38 (no overflow in 2*total+4)'],
+ 'native_cxx_probes': [{'file': 'units/C04/native/vector_encoders_probe.cpp', 'run': True, 'sources': ['igris/protocols/gstuff.cpp', 'igris/util/crc.c'],
+                        'what': 'real std::vector-returning gstuff encoders and the real receiver (not the extraction)',
+                        'bound': 'both alphabets; all payloads of length 0..3 over 7 marker-heavy byte values; lengths 1..140 with one marker at every position; one buffer and two iovec pieces at every third cut: 40280 payloads'}],
 } @*/
 #include "vc.h"
 #include "cxx/gstuff_vec2.c"
